@@ -76,7 +76,7 @@ type loc struct {
 }
 
 func (g *Gen) intLocs() []loc {
-	ls := []loc{{"F.X", true}, {"F.Y", true}, {"F.Z", true}, {"F.H", true}, {"F.K", false}, {"F.W", false}, {"F.P.V", true},
+	ls := []loc{{"F.X", true}, {"F.Y", true}, {"F.Z", true}, {"F.H", true}, {"F.XX", true}, {"F.K", false}, {"F.W", false}, {"F.P.V", true},
 		{"F.M[\"a\"]", true}, {"F.M[\"b\"]", true}, {"F.X", true}, {"F.Y", true}}
 	if g.p.UseTop {
 		ls = append(ls, loc{"N", true}, loc{"N", true})
@@ -499,7 +499,7 @@ func (g *Gen) Program() *Program {
 // World generates an initial fact state.
 func (g *Gen) World() *World {
 	v := func() int64 { return int64(g.pick(5)) }
-	f := &Fact{X: v(), Y: v(), Z: v(), H: v(), K: int(v()), W: int32(v()), B: g.chance(0.5), C: g.chance(0.5),
+	f := &Fact{X: v(), Y: v(), Z: v(), XX: v(), H: v(), K: int(v()), W: int32(v()), B: g.chance(0.5), C: g.chance(0.5),
 		S: []string{"", "a", "b", "ab"}[g.pick(4)], T: []string{"", "a", "b"}[g.pick(3)], I: int64(g.pick(2)),
 		P: &Sub{V: v(), S: []string{"", "a"}[g.pick(2)]}, Spare: &Sub{V: 7, S: "sp"}, Arr: []int64{v(), v()}, M: map[string]int64{"a": v(), "b": v()}}
 	if g.p.PFault > 0 {
